@@ -333,7 +333,7 @@ pub fn run(cx: &mut Ctx) {
     cx.assume("coordinates are finite and non-negative (DESIGN D-b); reciprocal depths in [0.1, 1] (w ratio <= 10:1)");
     cx.assume("0.5 % of the per-component vertex range (+1e-5 of the magnitude) is asserted for triangles with smallest altitude >= 1 px and coordinates <= 128 px; thinner or larger triangles get the tolerance scaled by max(1,(S/altitude)/128); below 0.01 px altitude only finiteness (DESIGN D-c)");
     cx.assume("colour attributes are interpolated affinely by design (ZDiv identity); they are generated with equal depth at the three vertices (DESIGN D-e)");
-    let n = cx.n(120_000, 5_000_000);
+    let n = cx.n(300_000, 10_000_000);
     cx.prop_check("fragments", n, frag_case, |c, obs| check(c, obs));
 }
 
